@@ -305,7 +305,7 @@ func NewEngine(sim *sched.Sim, h *Hist, c *SvcCase) *Engine {
 	e.Svc = svc
 	for i := 0; i < c.Epochs; i++ {
 		ep := &EpochInfo{}
-		ep.Conn = e.newConn(ep)
+		ep.Conn = e.newConn(ep, i)
 		e.Epochs = append(e.Epochs, ep)
 	}
 	e.Conn = e.Epochs[0].Conn
@@ -811,8 +811,12 @@ func (e *Engine) Epoch() *EpochInfo {
 }
 
 // connFor creates the connection of an epoch.
-func (e *Engine) newConn(ep *EpochInfo) *simconn.Conn {
+func (e *Engine) newConn(ep *EpochInfo, epoch int) *simconn.Conn {
 	c := simconn.New(e.Sim)
+	serveTask := "serve"
+	if epoch > 0 {
+		serveTask = "serve" + strconv.Itoa(epoch+1)
+	}
 	cs := e.Case
 	nsub := 0
 	c.FailSubscribe = func(subject string) error {
@@ -833,10 +837,11 @@ func (e *Engine) newConn(ep *EpochInfo) *simconn.Conn {
 		return nil
 	}
 	c.OnPublish = func(p *simconn.PubRec) {
-		// an event begun before this Serve call may be published on this
+		// an event begun before this Serve call - the system.reset of the
+		// previous Serve call included - may be published on this
 		// connection while the service is still starting; the started
-		// window begins with Serve's own system.reset
-		if ep.Started == 0 && p.Subject == "system.reset" && strings.HasPrefix(p.Task, "serve") {
+		// window begins with the system.reset of this epoch's Serve call
+		if ep.Started == 0 && p.Subject == "system.reset" && p.Task == serveTask {
 			ep.Started = p.Seq
 		}
 		if cls, detail := e.Mon.Validate(p); cls != "" {
